@@ -117,6 +117,11 @@ func (g *Gen) do(line string) string {
 	if res == "PANIC" {
 		g.stats["panic"]++
 	}
+	// `R3 !ROW-NOT-LIVE`: the harness's own finding rides behind the result; the generator carries on with the id
+	if i := strings.Index(res, " !"); i > 0 && res[0] == 'R' {
+		g.stats["harness-flag:"+res[i+2:]]++
+		return res[:i]
+	}
 	return res
 }
 
